@@ -212,6 +212,250 @@ def h_chunk(H):
         S.explore(body)
 
 
+# ----------------------------------------------------------------------------- _make_wfs_table: selection per unit, table rows, waveform_index
+def _table_pieces():
+    import ast
+    from pyvc import interp as I
+    FN = WE._make_wfs_table
+    node, filename = I.SOURCES.funcdef(FN)
+    loops = [n for n in node.body if isinstance(n, ast.For)]
+    if len(loops) != 1:
+        raise I.Unsupported("cannot identify the per-unit loop of _make_wfs_table()")
+    loop = loops[0]
+    k = node.body.index(loop)
+    return FN, node, filename, loop, node.body[:k], node.body[k + 1:]
+
+
+def _table_inputs(it, H_=None):
+    from pyvc import interp as I
+    from pyvc import models as M
+    nsp, ns, max_wf, trough, L = z3.Ints("nspikes ns max_wf trough_offset spike_length")
+    it.ctx.assume(z3.And(nsp >= 1, ns >= 1, max_wf >= 1, trough >= 0, L >= 1, trough < L))
+    if H_ is not None:
+        H_.input(nspikes=nsp, ns=ns, max_wf=max_wf, trough_offset=trough, spike_length=L)
+    samples = A.fresh_array("spike_samples", "int64", (nsp,), ranged=False)
+    clusters = A.fresh_array("spike_clusters", "int64", (nsp,), ranged=False)
+    channels = A.fresh_array("spike_channels", "int64", (nsp,), ranged=False)
+
+    class SR:
+        _pyvc_ok = True
+    sr = SR()
+    sr.ns = SV(ns)
+    it.session.contracts[np.random.default_rng] = M.default_rng_summary
+    it.session.contracts[pd.DataFrame] = pdmodel.dataframe_summary
+    FN, node, filename, loop, before, after = _table_pieces()
+    it.session.note_function(FN)
+    env = I.Env(None, FN.__globals__, qualname="_make_wfs_table", filename=filename)
+    env.funcnode = node
+    env.vars.update(dict(sr=sr, spike_samples=samples, spike_clusters=clusters, spike_channels=channels, max_wf=SV(max_wf),
+                         trough_offset=SV(trough), spike_length_samples=SV(L), seed=None))
+    it.ctx.func = env.qualname
+    it.exec_block(before, env)
+    uq = getattr(it.ctx, "unique_log", [])
+    if len(uq) != 1:
+        raise I.Unsupported("cannot identify the distinct unit ids (np.unique) in _make_wfs_table()")
+    return dict(nsp=nsp, ns=ns, max_wf=max_wf, trough=trough, L=L, samples=samples, clusters=clusters, channels=channels, env=env, uq=uq[0], loop=loop, after=after)
+
+
+def _table_var(env, name, what):
+    from pyvc import interp as I
+    v = env.vars.get(name)
+    if not isinstance(v, SArr):
+        raise I.Unsupported(f"cannot identify {what} (local '{name}') in _make_wfs_table()")
+    return v
+
+
+def native_table(rng, ncases, max_wf=None, trough=None, L=None):
+    """_make_wfs_table on generated spike trains (edge samples at both margins, units below / at / above max_wf, spike index 0 valid and
+    certainly selected): per-unit counts, distinct rows, columns, waveform_index bijection grouped by unit in table order"""
+    bad = []
+
+    class SR:
+        pass
+    for t in range(ncases):
+        tr = int(trough) if trough is not None and 0 <= int(trough) <= 60 else int(rng.integers(0, 50))
+        ln = int(L) if L is not None and tr < int(L) <= 200 else int(rng.integers(tr + 1, tr + 90))
+        mw = int(max_wf) if max_wf is not None and 1 <= int(max_wf) <= 64 else int(rng.integers(1, 12))
+        ns = int(rng.integers(3 * ln + 50, 4000))
+        sr = SR()
+        sr.ns = ns
+        hi = ns - (ln - tr)
+        edge = [0, max(tr - 1, 0), tr, tr + 1, tr + 2, hi - 2, hi - 1, hi, min(hi + 1, ns - 1), ns - 1]
+        nrand = int(rng.integers(0, 40))
+        smp = np.sort(np.r_[np.array(edge, dtype=np.int64), rng.integers(0, ns, nrand)]).astype(np.int64)
+        if t % 3 == 0:
+            smp = smp[smp > tr]                    # spike index 0 is valid
+        nsp = smp.size
+        nun = int(rng.integers(1, 5))
+        ids = np.sort(rng.choice(np.arange(0, 50), nun, replace=False))
+        clu = ids[rng.integers(0, nun, nsp)].astype(np.int64)
+        if t % 3 == 0:
+            clu[0] = ids[0]
+            if np.sum((clu == ids[0]) & (smp > tr) & (smp < hi)) > mw:     # keep unit 0 at or below max_wf so that spike 0 is certainly selected
+                keep = np.flatnonzero(clu == ids[0])[:mw]
+                oth = np.flatnonzero(clu != ids[0])
+                sel = np.sort(np.r_[keep, oth])
+                smp, clu = smp[sel], clu[sel]
+                nsp = smp.size
+        chn = rng.integers(0, 384, nsp).astype(np.int64)
+        try:
+            tab, units = WE._make_wfs_table(sr, smp, clu, chn, max_wf=mw, trough_offset=tr, spike_length_samples=ln, seed=int(rng.integers(0, 1 << 30)))
+        except Exception as e:
+            bad.append(("raised", repr(e)[:120], dict(ns=ns, max_wf=mw, trough=tr, L=ln)))
+            continue
+        key = dict(ns=ns, max_wf=mw, trough=tr, L=ln, nspikes=int(nsp))
+        valid = (smp > tr) & (smp < hi)
+        if not np.array_equal(np.asarray(units), np.unique(clu)):
+            bad.append(("unit_ids", key))
+        for u in np.unique(clu):
+            want = min(mw, int(np.sum(valid & (clu == u))))
+            got = int(np.sum(tab["cluster"].to_numpy() == u))
+            if got != want:
+                bad.append(("count", int(u), got, want, key))
+        # every row is a distinct valid spike with its own unit / channel
+        rows = list(zip(tab["sample"].to_numpy().tolist(), tab["cluster"].to_numpy().tolist(), tab["peak_channel"].to_numpy().tolist()))
+        pool = {}
+        for i in np.flatnonzero(valid):
+            pool[(int(smp[i]), int(clu[i]), int(chn[i]))] = pool.get((int(smp[i]), int(clu[i]), int(chn[i])), 0) + 1
+        used = {}
+        for r_ in rows:
+            used[r_] = used.get(r_, 0) + 1
+        if any(used[r_] > pool.get(r_, 0) for r_ in used):
+            bad.append(("row is not a (distinct) valid spike", key))
+        if list(tab["sample"].to_numpy()) != sorted(tab["sample"].to_numpy()):
+            bad.append(("table not in ascending spike order", key))
+        wi = tab["waveform_index"].to_numpy()
+        n = len(tab)
+        if sorted(wi.tolist()) != list(range(n)):
+            bad.append(("waveform_index is not a bijection onto the rows", key))
+        else:
+            order = np.lexsort((np.arange(n), tab["cluster"].to_numpy()))
+            if not np.array_equal(wi[order], np.arange(n)):
+                bad.append(("waveform_index not grouped by unit in table order", key))
+    return bad
+
+
+def replay_table(vals, oid):
+    g = lambda k_: (int(vals[k_]) if isinstance(vals.get(k_), (int, np.integer)) or (isinstance(vals.get(k_), str) and vals[k_].lstrip("-").isdigit()) else None)   # noqa
+    bad = native_table(np.random.default_rng(5), 60, max_wf=g("max_wf"), trough=g("trough_offset"), L=g("spike_length"))
+    bad += native_table(np.random.default_rng(6), 120)
+    return {"failed": bool(bad), "examples": bad[:3]}
+
+
+@harness(PROPERTY, "make_wfs_table", functions=["ibldsp.waveform_extraction:_make_wfs_table"], replay=replay_table,
+         clause="each unit receives min(max_wf, number of its spikes lying farther than the window margins from both ends) distinct spikes; the table lists exactly the selected spikes, each once, "
+                "in ascending spike order with their own sample / unit / peak channel; waveform_index is a bijection onto the rows of the traces file, grouped by unit")
+def h_table(H):
+    from pyvc import interp as I
+
+    # ---- one symbolic iteration of the per-unit loop (state before it: rows of later units still hold the padding value)
+    S = H.session("table.iteration")
+
+    def body(it):
+        P = _table_inputs(it, H)
+        env, uq, loop = P["env"], P["uq"], P["loop"]
+        nu, nsp, max_wf = uq["m"], P["nsp"], P["max_wf"]
+        U = _table_var(env, "unit_wf_idx", "the per-unit index table")
+        r, c, c2, p_ = z3.Ints("r c c2 p")
+        it.ctx.oblige("table.init.shape", z3.And(z3.BoolVal(U.ndim == 2), A.T(U.shape[0]) == nu, A.T(U.shape[1]) == max_wf), "post", "one row per unit, max_wf slots")
+        it.ctx.oblige("table.init.padding", A.forall([r, c], lambda: z3.Implies(z3.And(r >= 0, r < nu, c >= 0, c < max_wf), U.read((r, c)) < 0)), "post",
+                      "before the loop every slot holds a value that is not a spike index")
+        i = z3.Int("i_unit")
+        it.ctx.assume(z3.And(i >= 0, i < nu))
+        # loop state at iteration i: rows of earlier units are arbitrary (havoc), rows i.. still hold the padding
+        pad = U.read((i, z3.IntVal(0)))
+        U0 = A.fresh_array("unit_wf_idx_at_i", "int64", (nu, max_wf), ranged=False)
+        it.ctx.assume(z3.ForAll([r, c], z3.Implies(z3.And(r >= i, r < nu, c >= 0, c < max_wf), U0.uf(r, c) == -1), patterns=[U0.uf(r, c)]))
+        env.vars["unit_wf_idx"] = U0
+        u0 = U0.snapshot()
+        nw0 = len([q for q in it.ctx.where_log if q["ndim"] == 1])
+        it.assign(loop.target, (SV(i), wrap_elem(uq, i)), env)
+        it.exec_block(list(loop.body), env)
+        U1 = env.vars["unit_wf_idx"]
+        w = [q for q in it.ctx.where_log if q["ndim"] == 1][nw0:]
+        rng = getattr(it.ctx, "rng_log", [])
+        if len(w) != 1 or len(rng) != 1 or len(rng[0].draws) != 1:
+            raise I.Unsupported("cannot identify the selection of one unit's valid spikes / the random draw in the loop of _make_wfs_table()")
+        w, draw = w[0], rng[0].draws[0]
+        sm, cl = P["samples"], P["clusters"]
+        uid = uq["values"](i)
+        valid = lambda q: z3.And(cl.read((q,)) == uid, sm.read((q,)) > P["trough"], sm.read((q,)) < P["ns"] - (P["L"] - P["trough"]))    # noqa
+        it.ctx.oblige("table.valid_spikes_of_unit", A.forall([p_], lambda: z3.Implies(z3.And(p_ >= 0, p_ < nsp), w["mask"]((p_,)) == valid(p_))), "post",
+                      "the candidates of unit i are exactly its spikes lying farther than the window margins from both ends of the recording")
+        cnt = w["count"]
+        kk = z3.If(max_wf <= cnt, max_wf, cnt)
+        it.ctx.oblige("table.draw_size", z3.And(draw["k"] == kk, draw["n"] == cnt), "post", "min(max_wf, number of valid spikes) spikes are drawn from the candidates, without replacement")
+        it.ctx.oblige("table.row.selected_valid_distinct", z3.And(
+            A.forall([c], lambda: z3.Implies(z3.And(c >= 0, c < kk), z3.And(U1.read((i, c)) >= 0, U1.read((i, c)) < nsp, valid(U1.read((i, c)))))),
+            A.forall([c, c2], lambda: z3.Implies(z3.And(c >= 0, c < c2, c2 < kk), U1.read((i, c)) != U1.read((i, c2))))), "post",
+            "the first min(max_wf, nvalid) slots of row i hold pairwise distinct valid spikes of unit i", assume=False)
+        it.ctx.oblige("table.row.padding_after", A.forall([c], lambda: z3.Implies(z3.And(c >= kk, c < max_wf), U1.read((i, c)) == -1)), "post", "the remaining slots keep the padding value", assume=False)
+        it.ctx.oblige("table.row.frame", A.forall([r, c], lambda: z3.Implies(z3.And(r >= 0, r < nu, r != i, c >= 0, c < max_wf), U1.read((r, c)) == u0((r, c)))), "post",
+                      "iteration i writes row i only", assume=False)
+    S.explore(body)
+
+    # ---- the code after the loop, from the loop's post-state (every row as established by the iteration obligations)
+    S2 = H.session("table.tail")
+
+    def tail(it):
+        P = _table_inputs(it, H)
+        env, uq = P["env"], P["uq"]
+        nu, nsp, max_wf = uq["m"], P["nsp"], P["max_wf"]
+        cl = P["clusters"]
+        kk = z3.Function("nsel", z3.IntSort(), z3.IntSort())           # ghost: number of spikes selected for unit r
+        U = A.fresh_array("unit_wf_idx_final", "int64", (nu, max_wf), ranged=False)
+        r, c, c2, q, q2 = z3.Ints("r c c2 q q2")
+        it.ctx.assume(z3.ForAll([r], z3.Implies(z3.And(r >= 0, r < nu), z3.And(kk(r) >= 0, kk(r) <= max_wf)), patterns=[kk(r)]))
+        it.ctx.assume(z3.ForAll([r, c], z3.Implies(z3.And(r >= 0, r < nu, c >= 0, c < max_wf),
+                                                   z3.If(c < kk(r), z3.And(U.uf(r, c) >= 0, U.uf(r, c) < nsp, cl.uf(U.uf(r, c)) == uq["values"](r)), U.uf(r, c) == -1)), patterns=[U.uf(r, c)]))
+        it.ctx.assume(z3.ForAll([r, c, c2], z3.Implies(z3.And(r >= 0, r < nu, c >= 0, c < c2, c2 < kk(r)), U.uf(r, c) != U.uf(r, c2)), patterns=[z3.MultiPattern(U.uf(r, c), U.uf(r, c2))]))
+        env.vars["unit_wf_idx"] = U
+        try:
+            it.exec_block(P["after"], env)
+        except I.ReturnEx as e:
+            ret = e.v
+        else:
+            raise I.Unsupported("_make_wfs_table() does not return after the loop")
+        wf_flat, unit_ids = ret
+        if not isinstance(wf_flat, pdmodel.SFrame):
+            raise I.Unsupported("_make_wfs_table() does not return a DataFrame built from a dict of columns")
+        widx = _table_var(env, "wf_idx", "the sorted list of selected spike indices")
+        fl, so = getattr(it.ctx, "flatten_log", []), [x for x in getattr(it.ctx, "sort_log", []) if x.get("kind") == "sort"]
+        wh = [x for x in it.ctx.where_log if x["ndim"] == 1]
+        if len(fl) != 1 or len(so) != 1 or not wh:
+            raise I.Unsupported("cannot identify flatten -> sort -> padding filter in the tail of _make_wfs_table()")
+        fl, so, wh = fl[0], so[0], wh[0]
+        n = A.T(wf_flat.n)
+        it.ctx.oblige("table.rows.count", n == A.T(widx.shape[0]), "post", "one table row per listed spike index")
+        f_of = lambda qq: so["perm"](wh["rows"](qq))          # noqa  flat slot holding the qq-th listed index
+        it.ctx.oblige("table.rows.are_selected", A.forall([q], lambda: z3.Implies(z3.And(q >= 0, q < n), (lambda rr, cc: z3.And(rr >= 0, rr < nu, cc >= 0, cc < kk(rr), U.read((rr, cc)) == widx.read((q,))))(fl["row"](f_of(q)), fl["col"](f_of(q))))), "post",
+                      "every table row is one of the spikes selected for some unit (witness: the slot it was sorted from)", assume=False)
+        q_of = lambda rr, cc: wh["rank"](so["inv"](fl["flat"](rr, cc)))    # noqa
+        it.ctx.oblige("table.selected.are_rows", A.forall([r, c], lambda: z3.Implies(z3.And(r >= 0, r < nu, c >= 0, c < kk(r)), z3.And(q_of(r, c) >= 0, q_of(r, c) < n, widx.read((q_of(r, c),)) == U.read((r, c))))), "post",
+                      "every selected spike has a table row (witness: the rank of its slot after sorting and removing the padding)", assume=False)
+        it.ctx.oblige("table.rows.strictly_ascending", A.forall([q, q2], lambda: z3.Implies(z3.And(q >= 0, q < q2, q2 < n), widx.read((q,)) < widx.read((q2,)))), "post",
+                      "spike indices are listed in ascending order, none twice: with the two obligations above the rows are in bijection with the selected spikes", assume=False)
+        cols = {k_: wf_flat[k_].to_numpy() for k_ in ("sample", "cluster", "peak_channel", "waveform_index")}
+        it.ctx.oblige("table.columns.describe_the_spike", A.forall([q], lambda: z3.Implies(z3.And(q >= 0, q < n), z3.And(
+            cols["sample"].read((q,)) == P["samples"].read((widx.read((q,)),)), cols["cluster"].read((q,)) == cl.read((widx.read((q,)),)),
+            cols["peak_channel"].read((q,)) == P["channels"].read((widx.read((q,)),))))), "post", "row q carries the sample, unit and peak channel of the q-th listed spike", assume=False)
+        wi = cols["waveform_index"]
+        it.ctx.oblige("table.waveform_index.range", A.forall([q], lambda: z3.Implies(z3.And(q >= 0, q < n), z3.And(wi.read((q,)) >= 0, wi.read((q,)) < n))), "post", assume=False)
+        it.ctx.oblige("table.waveform_index.injective", A.forall([q, q2], lambda: z3.Implies(z3.And(q >= 0, q < q2, q2 < n), wi.read((q,)) != wi.read((q2,)))), "post",
+                      "no two table rows share a row of the traces file (injective into [0, n): a bijection)", assume=False)
+        cq = lambda x: cols["cluster"].read((x,))     # noqa
+        it.ctx.oblige("table.waveform_index.grouped_by_unit", A.forall([q, q2], lambda: z3.Implies(z3.And(q >= 0, q < n, q2 >= 0, q2 < n, z3.Or(cq(q) < cq(q2), z3.And(cq(q) == cq(q2), q < q2))), wi.read((q,)) < wi.read((q2,)))), "post",
+                      "rows of the traces file are ordered by unit, then by table order (so each unit owns a contiguous block)", assume=False)
+        ua = A.as_sarr(unit_ids)
+        it.ctx.oblige("table.unit_ids", z3.And(A.T(ua.shape[0]) == nu, A.forall([r], lambda: z3.Implies(z3.And(r >= 0, r < nu), ua.read((r,)) == uq["values"](r)))), "post", "the returned unit ids are the distinct unit labels")
+    S2.explore(tail)
+
+
+def wrap_elem(uq, i):
+    from pyvc.core import wrap
+    return wrap(uq["values"](i))
+
+
 # ----------------------------------------------------------------------------- bounded
 def native_gather(rng, n):
     bad = []
@@ -345,6 +589,8 @@ def b_native(B):
     rng = np.random.default_rng(B.seed)
     bad = native_gather(rng, 60 if B.tier == "quick" else 400)
     B.case("extract_wfs_array_random", not bad, detail=bad[:4])
+    bad = native_table(rng, 150 if B.tier == "quick" else 1500)
+    B.case("make_wfs_table_generated", not bad, detail=bad[:4], inputs={"kind": "table"})
     runs = [(6100, 500, 1), (6100, 3000, 3), (6100, 6100, 1), (9000, 1000, 3)]
     if B.tier == "thorough":
         runs = [(ns, ch, j) for ns in (6100, 9000) for ch in (500, 1000, 2000, 3000, ns) for j in (1, 3)]
